@@ -1,8 +1,9 @@
 """C09 - POVM measurement: correct probabilities and post-state at every entry point.
 
 One structural case = target(s) x storage layout x level x entry point x destructive flag (x partial for the state
-entry point).  Operators: complete, non-projective, complex sets  M_0 = U_0 diag(cos a_j), M_1 = U_1 diag(sin a_j)
-with concrete unitaries U_i and symbolic angles a_j (sum M^+ M = 1 holds identically), factors bound to the targets in
+entry point).  Operators: complete, non-projective, complex sets  M_0 = V_0 diag(cos a_j) W, M_1 = V_1 diag(sin a_j) W
+with concrete complex unitaries V_i, W and symbolic angles a_j (sum M^+ M = 1 holds identically; the effects
+M_i^+ M_i = W^+ D_i^2 W are non-diagonal with imaginary parts), factors bound to the targets in
 the order given.  The sampler stub forks over both outcomes (and over the outcomes of any follow-up projective
 measurement the implementation performs).
 Obligations per path: the probability vector of the POVM draw is proportional to Tr(M_i rho_T M_i^+) (and sums to
@@ -72,6 +73,8 @@ def cases(tier):
             for dest in (True, False):
                 if dest and lid.startswith("C-") and not lid.endswith("-M"):
                     continue  # see above
+                if dest and lid.startswith("C-") and tier == "quick":
+                    continue  # two-target destructive POVM on a Matrix-level product space: thorough tier only (minutes)
                 out.append({"id": f"two/{lid}/{entry}/{','.join(pr)}/dest{int(dest)}", "kind": "two", "world": w,
                             "targets": list(pr), "entry": entry, "dest": dest, "partial": True})
     return out
@@ -104,13 +107,16 @@ def make_povm(B, dims):
     for j in range(D):
         d0[j, j] = ca if j % 3 != 1 else cb
         d1[j, j] = sa if j % 3 != 1 else sb
+    # M_i = V_i D_i W with unitaries V_i, W: the effects M_i^+ M_i = W^+ D_i^2 W are non-diagonal and complex,
+    # and sum_i M_i^+ M_i = W^+ (D_0^2 + D_1^2) W = 1 for all angles
     if len(dims) == 1:
-        U0 = _embed(B, _u0(B), D)
-        U1 = _embed(B, cm.pol_gate(B, "H"), D)
+        V0 = _embed(B, _u0(B), D)
+        V1 = _embed(B, cm.pol_gate(B, "H"), D)
+        Wm = _embed(B, ref.matmul(cm.pol_gate(B, "H"), cm.pol_gate(B, "S")), D)  # W^+ D W has imaginary off-diagonals
     else:
         A0 = _embed(B, _u0(B), dims[0])
         A1 = _embed(B, cm.pol_gate(B, "H"), dims[1])
-        U0 = ref.kron(A0, A1)
+        V0 = ref.kron(A0, A1)
         # a controlled flip of the second factor makes the set asymmetric under exchanging the targets
         P = ref.zeros((D, D), like)
         n1 = dims[1]
@@ -118,9 +124,11 @@ def make_povm(B, dims):
             q0, q1 = divmod(i, n1)
             j = q0 * n1 + ((1 - q1) if (q0 == 1 and q1 < 2) else q1)
             P[j, i] = ref.const(1, like)
-        U0 = ref.matmul(U0, P)
-        U1 = ref.kron(_embed(B, cm.pol_gate(B, "H"), dims[0]), _embed(B, _u0(B), dims[1]))
-    M0, M1 = ref.matmul(U0, d0), ref.matmul(U1, d1)
+        V0 = ref.matmul(V0, P)
+        V1 = ref.kron(_embed(B, cm.pol_gate(B, "H"), dims[0]), _embed(B, _u0(B), dims[1]))
+        Wm = ref.matmul(ref.kron(_embed(B, ref.matmul(cm.pol_gate(B, "H"), cm.pol_gate(B, "S")), dims[0]),
+                                 _embed(B, cm.pol_gate(B, "H"), dims[1])), P)
+    M0, M1 = ref.matmul(V0, ref.matmul(d0, Wm)), ref.matmul(V1, ref.matmul(d1, Wm))
     api = [B.const_array(M) if B.mode == "real" else B.jnp.ndarray(M) for M in (M0, M1)]
     return api, [M0, M1]
 
